@@ -1,6 +1,10 @@
 package props
 
 import (
+	"fmt"
+	"go/ast"
+	"strings"
+
 	"j5verif/checker/core"
 	"j5verif/checker/rules"
 )
@@ -20,4 +24,58 @@ func C14(r *core.Run) {
 	rules.Determinism(r, sc, "det_sites")
 	r.Floor("R-DET/N1", 6, "map ranges and protoreflect Range calls on the compile/print path confirmed by reading")
 	rules.MemoPurity(r, "internal/j5s/protobuild", []string{"searchLinker.linkResult"}, "det_sites")
+	optionOrder(r)
+}
+
+// optionOrder (R-DET/N3): Builder.OptionsFor collects the options of an
+// element by ranging over the (unordered) extension fields and then sorts them
+// by source line or, when the descriptor has no source info — everything
+// compiled from j5s — by the extension's declaration index, which is only
+// unique within one file. Ties keep the iteration order. So every consumer
+// must impose a total order of its own before printing, or the set of
+// extensions that can occur on that kind of element must be known tie-free.
+func optionOrder(r *core.Run) {
+	r.Rule("R-DET/N3", "every caller of optionreflect.Builder.OptionsFor in the printer re-sorts what it prints with a comparator over the option's qualified name (unique per extension), or has a recorded reason why the extensions that can occur there never tie in OptionsFor's own order")
+	pk := r.P.Pkg(printRel)
+	if pk == nil {
+		r.Fatal("anchor: package %s not found", printRel)
+		return
+	}
+	info := pk.TypesInfo
+	core.AllFuncDecls(pk, func(fd *ast.FuncDecl) {
+		var calls []*ast.CallExpr
+		sorted := false
+		ast.Inspect(fd.Body, func(nd ast.Node) bool {
+			c, ok := nd.(*ast.CallExpr)
+			if !ok {
+				return true
+			}
+			name := core.CalleeName(info, c)
+			if strings.HasSuffix(name, "optionreflect.Builder).OptionsFor") {
+				calls = append(calls, c)
+			}
+			if name == "slices.SortFunc" || name == "slices.SortStableFunc" || name == "sort.Slice" || name == "sort.SliceStable" {
+				if len(c.Args) == 2 {
+					if fl, ok := c.Args[1].(*ast.FuncLit); ok {
+						ast.Inspect(fl.Body, func(x ast.Node) bool {
+							if s, ok := x.(*ast.SelectorExpr); ok && s.Sel.Name == "qualifiedName" {
+								sorted = true
+							}
+							return true
+						})
+					}
+				}
+			}
+			return true
+		})
+		for _, c := range calls {
+			o := r.Add("R-DET/N3", fmt.Sprintf("%s.%s | OptionsFor(%s)", printRel, core.FuncName(fd), core.ExprStr(c.Args[0])), c.Pos(), "order of the options printed for an element")
+			if sorted {
+				o.Auto("re-sorted by qualified name in the same function")
+			} else if !r.Table("det_sites", o) {
+				o.Fail("the options are printed in OptionsFor's order, which for descriptors without source info falls back to the extension's index in its own file and keeps map-iteration order on ties (e.g. (buf.validate.field) and (j5.list.v1.field) are both #2): the printed text varies between runs")
+			}
+		}
+	})
+	r.Floor("R-DET/N3", 3, "callers of OptionsFor in the printer")
 }
